@@ -1089,26 +1089,46 @@ func (c *Ctx) HeapImpl(rule, recvLen, recvPtr, less string) {
 			{Kind: "elemstore", Target: "$0", Args: []string{"$2", "$0[$1]"}, Guards: []string{}, Exact: true, N: 1, Why: "h[j] = old h[i]"},
 		})
 	}
+	var lastStore *ssa.Store
 	storeToRecv := func(fn *ssa.Function) []string {
 		var out []string
 		t := NewTermer(fn)
+		lastStore = nil
 		Instrs(fn, func(in ssa.Instruction) {
 			if st, ok := in.(*ssa.Store); ok && len(fn.Params) > 0 && st.Addr == ssa.Value(fn.Params[0]) {
 				out = append(out, t.T(st.Val))
+				lastStore = st
 			}
 		})
 		return out
+	}
+	// unconditional: the store is passed on every way out of the function
+	// (an element silently not stored, or not removed, breaks container/heap's
+	// bookkeeping and whatever counts on the element being there)
+	onEveryExit := func(fn *ssa.Function, st *ssa.Store) bool {
+		if st == nil {
+			return false
+		}
+		ok := true
+		Instrs(fn, func(in ssa.Instruction) {
+			if r, isRet := in.(*ssa.Return); isRet && !InstrDominates(st, r) {
+				ok = false
+			}
+		})
+		return ok
 	}
 	if fn := c.Fn(rule, recvPtr+"Push"); fn != nil {
 		sts := storeToRecv(fn)
 		ok := len(sts) == 1 && strings.HasPrefix(sts[0], "builtin:append($0, [$1.(")
 		c.Check(ok, rule, FuncName(fn)+"/appends", c.P.Pos(fn.Pos()), "*h = append(*h, x)", "Push does not append exactly the pushed element: "+strings.Join(sts, "; "))
+		c.Check(onEveryExit(fn, lastStore), rule, FuncName(fn)+"/appends-unconditionally", c.P.Pos(fn.Pos()), "every Push stores its element", "Push can return without storing the element")
 	}
 	if fn := c.Fn(rule, recvPtr+"Pop"); fn != nil {
 		c.CheckSites(rule, fn, []SiteSpec{{Kind: "return", Args: []string{"$0[(builtin:len($0) - 1)]"}, Guards: []string{}, Exact: true, N: 1, Why: "Pop hands back the last element (container/heap moved the minimum there)"}})
 		sts := storeToRecv(fn)
 		ok := len(sts) == 1 && termEq(sts[0], "$0[:(builtin:len($0) - 1)]")
 		c.Check(ok, rule, FuncName(fn)+"/shrinks-by-one", c.P.Pos(fn.Pos()), "*h = old[:n-1]", "Pop does not shrink the heap by exactly its last element: "+strings.Join(sts, "; "))
+		c.Check(onEveryExit(fn, lastStore), rule, FuncName(fn)+"/shrinks-unconditionally", c.P.Pos(fn.Pos()), "every Pop removes its element", "Pop can return without removing the element")
 	}
 }
 
